@@ -306,9 +306,9 @@ with TypedBrsL : ctx -> option name -> sty -> brs -> branches -> Prop :=
     TypedBrsL g sh A bs r ->
     TypedBrsL g sh A bs (BrCons l pay k r).
 
-Scheme Typed_ind3 := Induction for Typed Sort Prop
-with TypedBrsR_ind3 := Induction for TypedBrsR Sort Prop
-with TypedBrsL_ind3 := Induction for TypedBrsL Sort Prop.
+Scheme Typed_ind3 := Minimality for Typed Sort Prop
+with TypedBrsR_ind3 := Minimality for TypedBrsR Sort Prop
+with TypedBrsL_ind3 := Minimality for TypedBrsL Sort Prop.
 Combined Scheme Typed_mutind from Typed_ind3, TypedBrsR_ind3, TypedBrsL_ind3.
 
 End Judgement.
